@@ -5,7 +5,7 @@ set -o pipefail
 cd /repo
 export VET_VERIF_HARNESS=/verif/harness/mod.rs VET_VERIF_DIR=/verif/harness
 export CARGO_TARGET_DIR=/verif/.build/target CARGO_NET_OFFLINE=true RUSTFLAGS="-Awarnings"
-out=$(cargo test --offline --features verif --no-run --bin cargo-vet --message-format=json 2>/verif/.build/cargo.err) || { grep -E "^error" -A 12 /verif/.build/cargo.err | head -80; exit 2; }
+out=$(cargo test --offline --features verif --no-run --bin cargo-vet --message-format=json 2>/verif/.build/cargo.err) || { cargo test --offline --features verif --no-run --bin cargo-vet 2>&1 | grep -E "^error" -A 12 | head -80; exit 2; }
 echo "$out" | python3 -c "
 import sys, json
 exe=None
